@@ -84,7 +84,7 @@ Fixpoint hard (bs : N -> bool) (g : nat) (e : expr) : bool :=
          match l with [] => false | x :: r => hard bs g x || go (g + ngroups x) r end) g es
   | Group c => hard bs (S g) c || bs (N.of_nat g)
   | LookAround _ _ => true
-  | Repeat c _ _ _ => hard bs g c
+  | Repeat c _ hi _ => hard bs g c || (N.eqb hi 0 && (0 <? ngroups c))   (* {0} over a group: the VM keeps the group *)
   | Backref _ | AtomicGroup _ | KeepOut | ContinueFromPreviousMatchEnd
   | BackrefExistsCondition _ | Conditional _ _ _ => true
   | Empty | Any _ | Literal _ _ | Delegate _ _ _ _ | SubroutineCall _ => false
